@@ -675,6 +675,21 @@ def run_composed(case):
                 memo[key] = b.build("f" + str(len(memo)))
             return memo[key]
 
+        def build_shared(sh):
+            """engines built from SHARED builder objects: a partial expression kept in a variable and
+            extended / built several times (the engines run at the same time)"""
+            parts = [build(t) for t in sh["common"]]
+            common = parts[0] + parts[1]
+            for e in parts[2:]:
+                common = common + e
+            out = []
+            for i, (ext, side, nz) in enumerate(zip(sh["exts"], sh["sides"], sh["nz"])):
+                b = common
+                for g in ext:
+                    b = (b + leaf[g]) if side == "L" else (leaf[g] + b)
+                out.append(b.build(f"shared{i}", nones_are_zeros=nz))
+            return out
+
         consumers = None
         sent = [0] * n
         max_backlog = 0
@@ -696,6 +711,8 @@ def run_composed(case):
                 # everything is built and subscribed in one go (no await in between): a consumer that
                 # subscribes after an engine started emitting legitimately misses the earlier samples
                 tops = [build(t) for t in case["forms"]] + [leaf[g] for g in case["direct"]]
+                if case.get("shared"):
+                    tops += build_shared(case["shared"])
                 consumers = [e.new_receiver(max_size=100000) for e in tops]
         outs = []
         for rx in consumers:
@@ -728,6 +745,18 @@ Definition check (c : list (list sample * list (Z * Z))) : bool :=
 """
 
 
+def shared_trees(case):
+    sh = case.get("shared")
+    if not sh:
+        return []
+    return [["+"] + list(sh["common"]) + list(ext) if side == "L" else ["+"] + list(ext) + list(sh["common"])
+            for ext, side in zip(sh["exts"], sh["sides"])]
+
+
+def composed_tops(case):
+    return list(case["forms"]) + list(case["direct"]) + shared_trees(case)
+
+
 def c_tree(case, t):
     if isinstance(t, int):
         return f"(engine_of [{c_stream(case, t, t)}] (@nil (list nat)))"
@@ -735,7 +764,7 @@ def c_tree(case, t):
 
 
 def composed_term(case, obs):
-    tops = list(case["forms"]) + list(case["direct"])
+    tops = composed_tops(case)
     parts = []
     for t, out in zip(tops, obs["outs"]):
         exp = "[" + "; ".join(f"({cZ(int(o[0] * TICK_US))}, {cZ(-1 if o[1] is None else o[1])})" for o in out) + "]" if out else "(@nil (Z * Z))"
@@ -779,6 +808,23 @@ def gen_composed_case(rng):
         direct.append(rng.randrange(n))
     case = {"kind": "composed", "d": d, "streams": streams, "forms": forms, "direct": sorted(set(direct)),
             "eng": [list(range(n))]}
+    if n >= 3 and rng.random() < 0.45:
+        # a common sub-builder reused for 2-3 engines: extended on the left or the right by other inputs,
+        # or built as it is (possibly twice), with nones_are_zeros on or off
+        order = list(range(n))
+        rng.shuffle(order)
+        k = rng.randint(2, n - 1)
+        common, rest = order[:k], order[k:]
+        exts, sides, nz = [], [], []
+        for _ in range(rng.randint(2, 3)):
+            r = rng.random()
+            ext = [] if r < 0.3 else rng.sample(rest, rng.randint(1, min(2, len(rest))))
+            exts.append(ext)
+            sides.append(rng.choice("LLR"))
+            nz.append(rng.random() < 0.4)
+        case["shared"] = {"common": common, "exts": exts, "sides": sides, "nz": nz}
+        if rng.random() < 0.5:
+            case["forms"] = case["forms"][:1]
     case["sched"] = gen_sched(rng, streams)
     return case
 
@@ -791,11 +837,19 @@ def shrink_composed(case):
     nosubscribe_late = [a for a in case["sched"] if a[0] != "y"]
     if nosubscribe_late != case["sched"]:
         yield {**case, "sched": nosubscribe_late}
-    if len(case["forms"]) + len(case["direct"]) > 1:
+    if len(case["forms"]) + len(case["direct"]) > 1 or (case.get("shared") and case["forms"]):
         for i in range(len(case["forms"])):
             yield {**case, "forms": case["forms"][:i] + case["forms"][i + 1:]}
         for i in range(len(case["direct"])):
             yield {**case, "direct": case["direct"][:i] + case["direct"][i + 1:]}
+    sh = case.get("shared")
+    if sh:
+        if case["forms"] or case["direct"]:
+            yield {**case, "forms": [], "direct": []}
+        if len(sh["exts"]) > 2:
+            for i in range(len(sh["exts"])):
+                yield {**case, "shared": {**sh, "exts": sh["exts"][:i] + sh["exts"][i + 1:],
+                                          "sides": sh["sides"][:i] + sh["sides"][i + 1:], "nz": sh["nz"][:i] + sh["nz"][i + 1:]}}
     for g in range(n):
         sg = case["streams"][g]
         if len(sg) > 1:
